@@ -312,26 +312,31 @@ impl<Aux> Vm<'_, Aux> {
         //
         // the first one will be used as a trap, to exit the program,
         // the second one is the actual callframe of the function
+        let depth = self.runtime_data.call_stack.len();
+        let stack_offset = len
+            .checked_sub(arity)
+            .ok_or(ExecutionErrorPayload::MissingArgument)?;
         for _ in 0..2 {
-            self.runtime_data
-                .call_stack
-                .push(CallFrame {
-                    src_instr_ptr: src,
-                    dst_instr_ptr: end as u32,
-                    stack_offset: len
-                        .checked_sub(arity)
-                        .ok_or(ExecutionErrorPayload::MissingArgument)?,
-                    closure,
-                    closure_object: if closure.is_null() {
-                        std::ptr::null_mut()
-                    } else {
-                        obj.as_ptr()
-                    },
-                })
-                .map_err(|_| ExecutionErrorPayload::CallStackOverflow)?;
+            let pushed = self.runtime_data.call_stack.push(CallFrame {
+                src_instr_ptr: src,
+                dst_instr_ptr: end as u32,
+                stack_offset,
+                closure,
+                closure_object: if closure.is_null() {
+                    std::ptr::null_mut()
+                } else {
+                    obj.as_ptr()
+                },
+            });
+            if pushed.is_err() {
+                // do not leave the first frame behind when the second does not fit
+                while self.runtime_data.call_stack.len() > depth {
+                    self.runtime_data.call_stack.pop();
+                }
+                return Err(ExecutionErrorPayload::CallStackOverflow);
+            }
         }
 
-        let depth = self.runtime_data.call_stack.len() - 2;
         let mut instr_ptr = src as usize;
         let result = self._run(&mut instr_ptr).map_err(|err| err.payload);
         // pop the trap callframe, and after an error the frames the callee left behind
